@@ -129,6 +129,7 @@ type sink struct {
 	counts map[string]int
 	cases  int
 	insts  int
+	sweep  int // calls made by identifier sweeps (send mode)
 }
 
 func newSink(path string) *sink {
@@ -146,6 +147,9 @@ func (s *sink) put(r *result) {
 		r.Findings = []finding{}
 	}
 	s.insts++
+	if r.Part == "send" {
+		s.sweep += r.Steps
+	}
 	for _, f := range r.Findings {
 		s.counts[f.Level+" "+f.Key]++
 	}
@@ -159,7 +163,7 @@ func (s *sink) finish(extra jmap) {
 		keys = append(keys, k)
 	}
 	sort.Strings(keys)
-	sum := jmap{"cases": s.cases, "instances": s.insts, "findings": s.counts}
+	sum := jmap{"cases": s.cases, "instances": s.insts, "findings": s.counts, "sweep_calls": s.sweep}
 	for k, v := range extra {
 		sum[k] = v
 	}
